@@ -242,6 +242,7 @@ type machine struct {
 	lastWire []byte
 	wireOK   bool // lastWire/last describe the current state
 	buf      bytes.Buffer
+	destOld  []int // values the last "same" destination held before it was overwritten from the wire
 }
 
 var pos5 = func(n int) []int { return []int{0, 1, 15, 16, n - 1} }
@@ -480,6 +481,32 @@ func (m *machine) makeDest(dest string) (c cont, perr string) {
 			for j := 0; j < cnt; j++ {
 				c.Set((j*37+11)%k.n, hi[(j+7)%len(hi)])
 			}
+		case "same":
+			// a container that was used before at the SAME number of distinct values (same width and
+			// representation as the source) but with other values: stale per-palette state shows
+			// only when one of its old values is set again after the transfer
+			inUse := map[int]bool{}
+			for _, u := range m.used {
+				inUse[u] = true
+			}
+			other := "high"
+			if m.cs.IDs == "high" {
+				other = "low"
+			}
+			var cand []int
+			for _, id := range k.idOrder(other) {
+				if !inUse[id] {
+					cand = append(cand, id)
+				}
+				if len(cand) == len(m.used) {
+					break
+				}
+			}
+			c = k.fresh(cand[0])
+			for j := 1; j < len(cand); j++ {
+				c.Set((j*37+11)%k.n, cand[j])
+			}
+			m.destOld = cand
 		default:
 			engine.HarnessError("unknown destination %q", dest)
 		}
@@ -606,6 +633,15 @@ func (m *machine) exec(s Step, judged bool) bool {
 		return m.set("existing-id", s.Pos%n, v, judged)
 	case "default":
 		return m.set("default-id", s.Pos%n, m.used[0], judged)
+	case "old-dest": // a value the destination held before the last transfer into it
+		if len(m.destOld) == 0 {
+			return true
+		}
+		v := m.destOld[len(m.destOld)-1]
+		if s.Arg == 1 {
+			v = m.destOld[len(m.destOld)/2]
+		}
+		return m.set("dest-old-id", s.Pos%n, v, judged)
 	case "grow-to":
 		return m.growTo(s.Arg, s.Every, s.RT, judged, "new-id")
 	case "G": // grow to the next boundary (fill the current representation)
@@ -809,6 +845,9 @@ func buildTasks(thorough bool) []Case {
 							c2.From = 2
 							tasks = append(tasks, c2)
 						}
+						c3 := base
+						c3.Steps = cat(pre, []Step{{Op: "rt", Dest: "same"}, {Op: "old-dest", Pos: 5}, {Op: "existing", Pos: 1}, {Op: "old-dest", Pos: n - 1, Arg: 1}, {Op: "new", Pos: 2}})
+						tasks = append(tasks, c3)
 					}
 				}
 			}
